@@ -435,6 +435,10 @@ func (tx *Transaction) VerifyTxBody(chainID uint16, timeStamp uint64, isBlockTx 
 	if tx.Amount().Sign() < 0 {
 		return ErrNegativeValue
 	}
+	// amounts and prices are at most 256 bit numbers (the whole supply fits in 91 bits)
+	if tx.Amount().BitLen() > 256 || tx.GasPrice().BitLen() > 256 {
+		return ErrValueTooLarge
+	}
 	toNameLength := len(tx.ToName())
 	if toNameLength > 0 {
 		if toNameLength > MaxTxToNameLength {
